@@ -72,4 +72,15 @@
 #define ASSERT_PTR_FATAL_ERR(ptr, err)    \
     if ((void*)(ptr) == NULL) { CONodeFatalError(); return(err); }
 
+/* Verification hooks: ghost statements (lemma instantiations, ghost state
+ * updates) for the contract based verification. They expand to nothing unless
+ * CO_VERIF is defined;
+ * with CO_VERIF the verification framework supplies "co_verif.h".
+ */
+#ifdef CO_VERIF
+#include "co_verif.h"
+#else
+#define CO_VERIF_GHOST(name)
+#endif
+
 #endif /* ifndef CO_TYPES_H_ */
